@@ -40,7 +40,7 @@ TInit ==
   /\ stopping = FALSE /\ mem = FreshMem /\ wk = FreshWk /\ pc = "idle" /\ cyc = NoCyc
   /\ bud = [edits |-> 0, fails |-> 0, kills |-> 0, stops |-> 0, deletes |-> 0, foreign |-> 0, toggles |-> 0,
             relists |-> 0, holds |-> 0]
-  /\ gh = [succ |-> [h \in H |-> 0], seen |-> [h \in H |-> 0], deldone |-> {}, early |-> FALSE,
+  /\ gh = [succ |-> [h \in H |-> 0], seen |-> [h \in H |-> 0], deldone |-> {}, delagain |-> FALSE, early |-> FALSE,
            touched |-> FALSE, resumed |-> [h \in H |-> 0], badinv |-> "none", foreignlost |-> FALSE,
            reverted |-> FALSE, leftunmatched |-> FALSE, staleview |-> FALSE,
            ownrv |-> 0, owntime |-> 0, blindwrite |-> FALSE, cseen |-> [h \in H |-> 0], f8 |-> FALSE,
@@ -90,6 +90,9 @@ TEnter   == Ev("enter") /\ IF Known(E.h) /\ ~mem.run[E.h].started THEN DEnter(E.
 TSeen    == Ev("flagseen") /\ IF Known(E.h) /\ Alive(E.h) THEN DSeeFlag(E.h) ELSE Lost /\ Same
 TCancel  == Ev("cancel") /\ IF Known(E.h) /\ Alive(E.h) THEN (IF mem.run[E.h].creq THEN DCancelled(E.h) ELSE SweepCancel(E.h)) ELSE Lost /\ Same
 TExit    == Ev("exit") /\ IF Known(E.h) /\ Alive(E.h) THEN DExit(E.h) ELSE Lost /\ Same
+\* the run was cut because the operator never came to rest within one instant (the recorder overflowed): the prefix is validated,
+\* and the family of the livelock, if it is a known one, is named
+TLive    == Ev("livelock") /\ UNCHANGED <<obj, chan, bl, up, stopping, mem, wk, pc, cyc, now, bud, gh>>
 TQuiet   == Ev("quiet") /\ ~ENABLED Urgent /\ (up => chan = <<>> /\ bl = <<>>)
             /\ UNCHANGED <<obj, chan, bl, up, stopping, mem, wk, pc, cyc, now, bud, gh>>
 
@@ -108,14 +111,15 @@ FirstBad == IF ~InvokeGoverned THEN "InvokeGoverned" ELSE IF ~InvokeCauseOk THEN
             ELSE IF ~Stealth THEN "Stealth" ELSE IF ~DaemonStages THEN "DaemonStages" ELSE IF ~NoLateAttempt THEN "NoLateAttempt" ELSE "none"
 
 TStep == TEdit \/ TDelete \/ TFin \/ TDeliver \/ TBegin \/ TInv \/ TMerge \/ TJson \/ TEnd \/ TKill \/ TStop \/ TDown
-         \/ TList \/ TQuiet \/ TExiting \/ TEnter \/ TSeen \/ TCancel \/ TExit \/ Silent \/ Advance
+         \/ TList \/ TQuiet \/ TLive \/ TExiting \/ TEnter \/ TSeen \/ TCancel \/ TExit \/ Silent \/ Advance
 \* which known family excuses a final state that is not converged (reported as KNOWN-FINDING by the runner)
 Excuse == IF ~up \/ stopping \/ pc \in {"sleep", "cwait"} THEN "none"
           ELSE IF Converged THEN (IF Family_F8 THEN "F8" ELSE "none")
           ELSE IF Family_F20 THEN "F20" ELSE IF Family_F22 THEN "F22" ELSE IF Family_F21 THEN "F21"
           ELSE IF Family_F31 THEN "F31" ELSE "unconverged"
 TNext == /\ TStep /\ conf' = conf /\ bad' = (IF bad # "none" THEN bad ELSE FirstBad')
-         /\ exc' = (IF l <= Len(T) /\ E.ev = "quiet" /\ l' = l + 1 THEN Excuse ELSE exc)
+         /\ exc' = (IF l <= Len(T) /\ E.ev = "quiet" /\ l' = l + 1 THEN Excuse
+                    ELSE IF l <= Len(T) /\ E.ev = "livelock" /\ l' = l + 1 THEN (IF Family_F9 THEN "F9" ELSE "livelock") ELSE exc)
 TSpec == TInit /\ [][TNext]_tvars
 
 Max2(a, b) == IF a >= b THEN a ELSE b
